@@ -10,7 +10,8 @@
 
    One call record r (see T_ModeRegs) gives: mt, n (DFI phases = DRAM clocks per controller cycle), f (controller clock,
    kHz), cl, cwl, cwlx (1: the PHY chose cwl explicitly), bl (burst length the controller operates with), twr = <<ckm, ps>>
-   (datasheet tWR), wait (controller's write-to-precharge wait in controller cycles), frm, rdimm, clam, ratio (LPDDR5
+   (datasheet tWR), trp = <<ckm, ps>> and trpc (datasheet tRP and the cycles handed to the controller), wait (controller's
+   write-to-precharge wait in controller cycles), frm, rdimm, clam, ratio (LPDDR5
    WCK:CK), opt (requested electrical options, as JEDEC-neutral integers, -1 = not requested), seq/cseq/pseq. *)
 EXTENDS Integers, Sequences, FiniteSets, R_TimingConv
 
@@ -201,20 +202,32 @@ ElBad(r, d) ==
 
 \* ------------------------------------------------------------------------------------------------ consistency clauses
 (* Write recovery.  JEDEC: WR (nWR) programmed in the mode register = RU(tWR / tCK); the device starts the internal
-   precharge of a write with auto-precharge WL + BL/2 + WR clocks after the command (LPDDR4/5: one clock more).
+   precharge of a write with auto-precharge WL + BL/2 + WR clocks after the command (LPDDR4/5: one clock more) and the
+   bank may be activated tRP later.
    (a) WR * tCK >= tWR(ns) and WR >= tWR(clocks);
-   (b) the controller treats the bank as precharging `wait` controller cycles after the write command (at the earliest
-       wait*n DRAM clocks later): WL + BL/2 + WR (+1) <= wait * n, else it may re-activate before the device's tRP elapsed. *)
+   (b) "without exceeding what the controller waits for": the controller (bank machine) issues the next ACTIVATE to
+       that bank no earlier than wait + tRP controller cycles after the write command, i.e. on the least favourable
+       phases (wait + tRPc) * n - (n - 1) DRAM clocks later.  That must not be earlier than the device's
+       WL + BL/2 + WR (+1) + RU(tRP / tCK).  (The cruder bound  WL + BL/2 + WR <= wait * n  of DESIGN section 11 is
+       sufficient but not necessary: it ignores the slack of the tRP rounding, and flagged configurations that are safe.) *)
+\* slowest DRAM clock (kHz) of the JEDEC DLL-on operating range: tCK(avg)max = 12 ns DDR, 8 ns DDR2, 3.3 ns DDR3, 1.6 ns DDR4.
+\* Clause (b) reasons with the JEDEC auto-precharge timing model and is applied inside that range only; configurations
+\* below it (common on slow FPGAs) are still decoded and checked for everything else.
+MinDramKhz(mt) == CASE mt = "DDR" -> 83334 [] mt = "DDR2" -> 125000 [] mt = "DDR3" -> 303031 [] mt = "DDR4" -> 625000 [] OTHER -> 0
+InJedecRange(r) == r.f * r.n >= MinDramKhz(r.mt)
 BurstClocks(r) == IF r.mt = "LPDDR5" THEN 16 \div (2 * r.ratio) ELSE IF r.mt = "SDR" THEN r.bl ELSE r.bl \div 2
 WrBad(r, d) ==
     IF d.wr < 0 THEN (IF r.mt \in {"DDR2", "DDR3", "DDR4", "LPDDR4", "LPDDR5"} THEN {<<"write recovery field holds a reserved encoding", "WR", d.wr, 0>>} ELSE {})
     ELSE LET need == IF r.twr[2] > 0 THEN NeedTck(r.twr[2], r.f, r.n) ELSE 0
              extra == IF r.mt \in {"LPDDR4", "LPDDR5"} THEN 1 ELSE 0
-             devwait == d.wl + BurstClocks(r) + d.wr + extra
+             trpns == IF r.trp[2] > 0 THEN NeedTck(r.trp[2], r.f, r.n) ELSE 0
+             trpck == CeilDiv(r.trp[1], 1000)
+             devready == d.wl + BurstClocks(r) + d.wr + extra + (IF trpns > trpck THEN trpns ELSE trpck)
+             ctlact == HaveTck(r.wait + r.trpc, r.n)
          IN (IF d.wr < need THEN {<<"write recovery shorter than datasheet tWR (ns)", "WR", d.wr, need>>} ELSE {})
             \cup (IF d.wr * 1000 < r.twr[1] THEN {<<"write recovery shorter than datasheet tWR (clocks)", "WR", d.wr * 1000, r.twr[1]>>} ELSE {})
-            \cup (IF d.wl >= 0 /\ r.wait >= 0 /\ devwait > r.wait * r.n
-                  THEN {<<"write recovery longer than the controller's write-to-precharge wait", "WR", devwait, r.wait * r.n>>} ELSE {})
+            \cup (IF InJedecRange(r) /\ d.wl >= 0 /\ r.wait >= 0 /\ r.trpc >= 0 /\ devready > ctlact
+                  THEN {<<"write recovery longer than the controller waits before re-activating the bank", "WR", devready, ctlact>>} ELSE {})
 
 LatBad(r, d) ==
     (IF d.bl # r.bl THEN {<<"burst length differs from the controller's", "BL", d.bl, r.bl>>} ELSE {})
@@ -250,18 +263,32 @@ ExpClam(seq) == IF seq = <<>> THEN <<>>
                      (IF IsMrs(e) THEN << <<e[1], e[2], MRS + 64, e[4], 0>>, <<Mirror(e[1]), SwapBits(e[2], 0, 1), MRS + 128, e[4], 0>> >> ELSE <<e>>) \o ExpClam(Tail(seq))
 Logical(r) == IF r.rdimm = 1 THEN ExpRdimm(r.seq) ELSE r.seq
 P4(seq) == [k \in 1..Len(seq) |-> <<seq[k][1], seq[k][2], seq[k][3], seq[k][4]>>]
+(* Entries that are not mode-register writes (reset/CKE control writes, ZQ calibration) do not depend on the inverted bits;
+   a rendering may or may not repeat them for the B side.  Such repeats are dropped before comparing. *)
+InvOf(e) == [e EXCEPT ![1] = Xor(e[1], InvA, 18), ![2] = Xor(e[2], 15, 4)]
+Mrs4(e) == e[3] = MRS \/ e[3] = MRS + 64 \/ e[3] = MRS + 128
+RECURSIVE DropRepeats(_, _)
+DropRepeats(ren, prev) ==                      \* prev = last kept entry or <<>>
+    IF ren = <<>> THEN <<>>
+    ELSE LET e == Head(ren) IN
+         IF prev # <<>> /\ ~Mrs4(e) /\ ~Mrs4(prev) /\ prev[2] # 7 /\ e = InvOf(prev) THEN DropRepeats(Tail(ren), <<>>)
+         ELSE <<e>> \o DropRepeats(Tail(ren), e)
+Rendered(r, ren) == IF r.rdimm = 1 THEN DropRepeats(ren, <<>>) ELSE ren
 RenderBad(r) ==
-    (IF r.pseq # P4(Logical(r)) THEN {<<"Python header does not describe the generated sequence (after the RDIMM B-side duplication)", "py", Len(r.pseq), Len(Logical(r))>>} ELSE {})
-    \cup (IF r.cseq # (IF r.clam = 1 THEN ExpClam(Logical(r)) ELSE Logical(r))
+    (IF Rendered(r, r.pseq) # P4(Logical(r)) THEN {<<"Python header does not describe the generated sequence (after the RDIMM B-side duplication)", "py", Len(r.pseq), Len(Logical(r))>>} ELSE {})
+    \cup (IF Rendered(r, r.cseq) # (IF r.clam = 1 THEN ExpClam(Logical(r)) ELSE Logical(r))
           THEN {<<"C header does not describe the generated sequence (after RDIMM duplication / clam-shell split)", "c", Len(r.cseq), Len(Logical(r))>>} ELSE {})
     \cup (IF r.wrlvl[1] >= 0 /\ MR(r.seq, r.wrlvl[1]) # r.wrlvl[2]
           THEN {<<"write-leveling reset value in the C header differs from the programmed mode register", "c", r.wrlvl[2], MR(r.seq, r.wrlvl[1])>>} ELSE {})
+    \cup (IF r.pymr1 >= 0 /\ MR(r.seq, 1) # r.pymr1
+          THEN {<<"ddrx_mr1 in the Python header differs from the programmed mode register 1", "py", r.pymr1, MR(r.seq, 1)>>} ELSE {})
 RangeBad(r) ==
     LET w == IF r.mt \in {"LPDDR4", "LPDDR5"} THEN 8 ELSE r.abits IN
     {<<"mode register value wider than the address bus", "MR", r.seq[k][2], r.seq[k][1]>> : k \in {j \in 1..Len(r.seq) : IsMrs(r.seq[j]) /\ r.seq[j][1] >= Pow2(w)}}
 
 (* All clauses of one call record.  A generator that raises for a configuration the PHY can select programs nothing. *)
-InitBad(r) ==
+InitBadD(r, d) ==
     IF r.raised # "" THEN {<<"generator raises for a selectable configuration", r.raised, 0, 0>>}
-    ELSE LET d == Decode(r) IN LatBad(r, d) \cup WrBad(r, d) \cup JunkBad(d) \cup ElBad(r, d) \cup RenderBad(r) \cup RangeBad(r)
+    ELSE LatBad(r, d) \cup WrBad(r, d) \cup JunkBad(d) \cup ElBad(r, d) \cup RenderBad(r) \cup RangeBad(r)
+InitBad(r) == InitBadD(r, IF r.raised # "" THEN None ELSE Decode(r))
 ====
